@@ -277,6 +277,9 @@ HardFault(kind, fn) == kind \in {"write", "load", "save", "marshal", "unmarshal"
 P17_FaultIsError(w, ev, w2, h, r) == (ev.a = "fault" /\ ev.x.fired /\ HardFault(ev.x.kind, ev.fn)) => ev.res = "err"
 P17_NoPanic(w, ev, w2, h, r) == ev.a = "fault" => ev.res \in {"ok", "err"}
 
+\* replay of a model behaviour: the real code gives the result the model predicted when it generated the step
+P00_ReplayAgrees(w, ev, w2, h, r) == (Call(ev) /\ "mcres" \in DOMAIN ev.x) => ev.res = ev.x.mcres
+
 \* full agreement with the reference model ("drift" when false; never an alarm by itself)
 DiffParts(w, ev, w2, r) ==
   (IF IsOk(ev) # r.ok THEN {<<"res">>} ELSE {}) \cup (IF w2.acct # r.w.acct THEN {<<"acct">>} ELSE {}) \cup (IF w2.paused # r.w.paused THEN {<<"paused">>} ELSE {})
